@@ -73,7 +73,7 @@ structure Item (α : Type) where
   umag   : α               -- table magnitude of the symbol
   dims   : Dims            -- table dimensions of the symbol (`Dimensions.from_list`)
   exp    : Frac            -- exponent
-  deriving Inhabited
+  deriving Inhabited, DecidableEq
 
 /-- `BaseUnits` after `__init__`. `tag` identifies the object (which expression it came
     from); `items` is the dict after zero-exponent deletion. -/
@@ -84,7 +84,7 @@ structure BU (α : Type) where
   nobase    : Bool
   items     : List (Item α)
   tag       : Nat
-  deriving Inhabited
+  deriving Inhabited, DecidableEq
 
 variable {α : Type}
 
@@ -114,7 +114,7 @@ def mkBU [Mul α] [One α] [PowFrac α] (tag : Nat) (items : List (Item α)) : B
 inductive Mag (α : Type) where
   | scalar (x : α)
   | arr (xs : List α)
-  deriving Repr, Inhabited
+  deriving Repr, Inhabited, DecidableEq
 
 def Mag.map (f : α → α) : Mag α → Mag α
   | .scalar x => .scalar (f x)
@@ -168,7 +168,7 @@ def standard [Div α] [One α] : Rule α := fun b1 b2 =>
 structure Q (α : Type) where
   val : Mag α
   bu  : BU α
-  deriving Inhabited
+  deriving Inhabited, DecidableEq
 
 /-- `Quantity.__init__(magnitude, str)` after parsing, including "rebase if dimensions are
     zero": dimensionless compounds lose every unit that has a dimension, its factor being
